@@ -58,7 +58,7 @@ def run(M, rec, tier, seed, k, n):
     g = G.NetGen(rng)
     sh = W.shapes_cycle()
     try:
-        for it in range(110 if tier == "quick" else 700):
+        for it in range(110 if tier == "quick" else 1200):
             shp, desc, built0 = W.make_net(M, g, next(sh), rng)
             force_long = it % 8 == 3
             if force_long:  # a link with two-digit segment indices + initial clamps (symbols re-extracted)
